@@ -10,4 +10,18 @@ JSON
 (cd "$REPO" && go test -overlay "$ov" -vet=off -count=1 -timeout 60s -run 'TestF[0-9]' ./motion ./cmd/thermal-recorder)
 rc=$?
 rm -f "$ov"
+# C16: the data races recorded as known findings, shown by the race detector. Each of
+# the three "finding" tests is EXPECTED to fail with "WARNING: DATA RACE"; the two
+# control tests (ring of >= 2 slots, reset after the repair) are expected to pass.
+ov=$(mktemp)
+printf '{"Replace": {"%s/motion/zz_c16_probe_test.go": "%s/c16_race_probe_test.go"}}\n' "$REPO" "$HERE" > "$ov"
+for t in TestC16SnapshotVsFrameFill TestC16SnapshotVsReset; do
+  out=$(cd "$REPO" && go test -race -overlay "$ov" -vet=off -count=1 -timeout 120s -run "^$t\$" ./motion 2>&1)
+  if echo "$out" | grep -q "WARNING: DATA RACE"; then echo "C16 control $t: UNEXPECTED data race"; rc=1; else echo "C16 control $t: no race (as expected)"; fi
+done
+for t in TestC16SnapshotVsFrameFillOneSlot TestC16FrameCounter TestC16TestRecordingRequest; do
+  out=$(cd "$REPO" && go test -race -overlay "$ov" -vet=off -count=1 -timeout 120s -run "^$t\$" ./motion 2>&1)
+  if echo "$out" | grep -q "WARNING: DATA RACE"; then echo "C16 finding $t: data race demonstrated on the real code"; else echo "C16 finding $t: no race reported (finding may have been repaired)"; fi
+done
+rm -f "$ov"
 exit $rc
